@@ -887,6 +887,8 @@ class Program:
                 rest = o.path[1:]
                 if rest[:1] == (("await_join",),):
                     rest = rest[1:]
+                elif o.callee.path.startswith("tokio::") and rest[:2] == (("v", "Ok"), ("f", "0")):
+                    rest = rest[2:]      # tokio: awaiting a JoinHandle<T> yields Result<T, JoinError>
                 d = self._closure_return(o, rest, level, _visited)
                 if d is None:
                     out.add(self._abstract(o))
